@@ -2,7 +2,10 @@
 
 package leader
 
-import "time"
+import (
+	"context"
+	"time"
+)
 
 type vpTiming struct{ H, TTL time.Duration }
 
@@ -15,6 +18,8 @@ func vpUpdateTimeout(H time.Duration) time.Duration {
 	}
 	return to
 }
+
+var vpStartCtx context.Context // when set, the context handed to Start by vpLeadingInstance
 
 type vpLeaderScn struct {
 	st      *vpStore
@@ -40,7 +45,11 @@ func vpLeadingInstance(tm vpTiming, lat time.Duration, mod func(cfg *ElectionCon
 	s.cb = &vpCallbacks{}
 	s.cb.onDemoteFn = func() { s.demoted <- struct{}{} }
 	s.cb.install(s.e)
-	_ = s.e.Start(vpRootCtx())
+	sctx := vpRootCtx()
+	if vpStartCtx != nil {
+		sctx = vpStartCtx
+	}
+	_ = s.e.Start(sctx)
 	vpQuiesce()
 	vpAssert("harness.leader-after-start", s.e.IsLeader())
 	s.kv.lat = lat
@@ -76,6 +85,7 @@ func vpH_C03_T_changed() {
 	vpCover("C03.changed")
 	vpAssert("C03.demote-after-change", tc >= 0 && s.cb.demotes >= 1 && !s.e.IsLeader())
 	vpAssert("C03.demote-after-change:bound", vpImplies(s.cb.demotes >= 1, s.cb.demoteAt <= tc+int64(tm.H+2*s.to)))
+	vpAuditLog(s.st, "a", false, 0, false)
 }
 
 // vpH_C03_T_unreachable: from a symbolic instant on the store is unreachable (every operation fails after
@@ -93,7 +103,8 @@ func vpC03Unreachable(tm vpTiming) { vpC03UnreachableW(tm, 0) }
 
 // extra widens the window in which the cut may begin (so that slow successful refreshes precede it)
 func vpC03UnreachableW(tm vpTiming, extra time.Duration) {
-	s := vpLeadingInstance(tm, 0, nil)
+	mcf := []int{0, 6}[vpChoose("MaxConsecutiveFailures", 2)] // the health threshold must not change the heartbeat rule
+	s := vpLeadingInstance(tm, 0, func(cfg *ElectionConfig) { cfg.MaxConsecutiveFailures = mcf })
 	s.kv.lat = s.to - 1
 	s.kv.cutLat = s.to
 	s.kv.opLeft = 7
